@@ -7,6 +7,9 @@ from vlib import *
 B63 = [-2**63 - 1, -2**63, -2**63 + 1, 2**63 - 2, 2**63 - 1, 2**63, 2**64 - 1, 2**64, -2**127, 2**127 - 1, 2**127, 2**128 - 1]
 ASCII = [97, 98, 99, 100, 101, 102]
 MULTI = [97, 233, 8364, 119070, 98, 231]
+# how the bounds reach the engine: 0 literal, 1 variable (narrowest integer representation), 2 variable held as i128,
+# 3 variable held as u128 (i128 when negative), 4 through `'n'|int`, 5 through `n.0|int` (small n), 6 variable held as u64
+FORMS = [0, 1, 2, 3, 4, 5, 6]
 KINDS = [(0, ASCII), (0, MULTI), (1, [0, 1, 127, 128, 255, 7]), (2, None), (3, None), (4, None), (5, None)]
 
 
@@ -18,7 +21,7 @@ def elems(kind_row, n):
 def case(kind_row, n, mode, st, sp, se, form):
     def t(o):
         return [0, 0] if o is None else [1, o]
-    if -2**127 in (st, sp, se):
+    if -2**127 in (st, sp, se) and form in (0, 4, 5):
         form = 1  # the literal -2^127 is C08's known finding (unary minus keeps +2^127); pass it as a variable here
     return [kind_row[0], mode] + t(st) + t(sp) + t(se) + [form, n] + elems(kind_row, n)
 
@@ -39,9 +42,9 @@ def gen(chk):
             for st in bounds:
                 for sp in bounds:
                     for se in steps:
-                        cases.append(case(kr, n, 0, st, sp, se, f & 1)); f += 1
+                        cases.append(case(kr, n, 0, st, sp, se, FORMS[f % len(FORMS)])); f += 1
             for key in list(range(-9, 10)) + B63:
-                cases.append(case(kr, n, 1, key, None, None, f & 1)); f += 1
+                cases.append(case(kr, n, 1, key, None, None, FORMS[f % len(FORMS)])); f += 1
     exhaustive_n = len(cases)
     # boundary part of the property's box: sampled in quick, dense in thorough
     allb = [None] + list(range(-9, 10)) + B63
@@ -56,7 +59,7 @@ def gen(chk):
             if w == 0: st = rng.choice(B63)
             elif w == 1: sp = rng.choice(B63)
             else: se = rng.choice(B63)
-        cases.append(case(kr, n, 0, st, sp, se, rng.below(2)))
+        cases.append(case(kr, n, 0, st, sp, se, rng.choice(FORMS)))
     return cases, exhaustive_n
 
 
@@ -68,7 +71,7 @@ def describe(c):
         expr = "x[%s]" % c[3]
     else:
         expr = "x[%s:%s:%s]" % (o(c[2], c[3]), o(c[4], c[5]), o(c[6], c[7]))
-    return {"container": kind, "elements": c[10:10 + n], "expr": expr, "bounds_as": "literals" if c[8] == 0 else "variables"}
+    return {"container": kind, "elements": c[10:10 + n], "expr": expr, "bounds_as": ["literals", "variables", "variables (i128)", "variables (u128)", "'n'|int", "n.0|int", "variables (u64)"][c[8]]}
 
 
 def main():
